@@ -415,6 +415,6 @@ Proof.
     destruct (uo_pushed _); [apply os_refl|].
     eapply os_trans; [apply os_upd_up|apply os_enq_all].
   - destruct (Nat.ltb u (w_nup w) && negb (uo_closed (w_up w u))); [|apply so_refl].
-    destruct (c_group (w_cl w (uo_owner (w_up w u)))); [|apply so_refl].
+    destruct (c_group (w_cl w (uo_owner (w_up w u)))); [|apply so_same; apply os_upd_up].
     apply so_same. unfold new_timer. intro m. reflexivity.
 Qed.
